@@ -44,6 +44,8 @@ def decl_kind(node):
     if "block" in node:
         return "block"
     first = d.split()[0] if d.split() else ""
+    if first.startswith("template<") or first == "template":
+        first = "template"
     if first in ("class", "struct", "namespace", "enum", "typedef", "template"):
         if first == "template" and "class" not in d.split("(")[0]:
             return "function"
